@@ -20,3 +20,7 @@ claim("C02",
 claim("C03",
       "Decides the complete per-mode emission skeleton of NoteOn and NoteOff (all paths, grouped by collision-mode constant and holder-counter guard), that guard/event/counter use the same (channel, note), that the counter is inc-once/dec-once with no other writer and zero-initialised for 16x128, and that the case sets equal the supported-mode table.",
       COMMON_NOTE, "path-effect enumeration over go/ssa grouped by mode/guard atoms; counted-loop recognition; constant table comparison")
+
+claim("C04",
+      "Decides that the pitch tested against 0..127 is base + 12*octave + semitone computed without any 8/16-bit intermediate, that every emission is guarded by that range, channel = (channel+offset) mod 16, velocity = configured velocity; that every up/down/reset action stores exactly load±1 / the neutral constant into its own field with saturation guards for channel and mapping (inductive invariants channel in [0,15], mapping >= 0), the pair table of checkDoubleActions, the record->detect->invoke protocol of action presses, and initialisation from Defaults. Known finding: int8 octave/semitone wrap after 128 net steps.",
+      COMMON_NOTE, "affine-form and interval reasoning over enumerated SSA paths (no solver), inductive field invariants, table cross-check")
